@@ -53,6 +53,11 @@ Theorem C16_no_declared_file_no_change : forall declared files exts p,
   watch_filter2 declared files exts p = watch_filter exts p.
 Proof. exact no_declared_file_no_change. Qed.
 
+(* ... in particular everything spelled below a declared directory: `d`, a separator, anything *)
+Theorem C16_below_declared_dir_still_relevant : forall declared files exts d rest,
+  In d declared -> d <> [] -> watch_filter2 declared files exts (d ++ slash :: rest) = watch_filter exts (d ++ slash :: rest).
+Proof. exact below_declared_dir_still_relevant. Qed.
+
 Theorem C16_lprefix_spec : forall a b, lprefix a b = true <-> exists r, b = a ++ r.
 Proof. exact lprefix_spec. Qed.
 
